@@ -465,6 +465,11 @@ def handler3 (fn : String) : Option Handler :=
         | none => "skip bad-args" }
   | _ => none
 
+/-- `true`: the model of the 2-D `from_capsule` follows `fixes/C13-capsule2d-half-disk-centroid.diff` (corrected behaviour,
+defect protocol).  Set to `false` if that patch is not applied to `/repo`: the model is then the pinned code
+(`fromCapsule2Pinned`), the correspondence is bit-exact again and only the oracle reports the defect. -/
+def capsule2Fixed : Bool := true
+
 def handler (fn : String) : Option Handler :=
   match fn with
   | "tri_area" => some {
@@ -513,7 +518,8 @@ def handler (fn : String) : Option Handler :=
                                   | some (ar, c) => s!"{ff ar} {fv2 c}"
                                   | none => "panic")) a
       oracle := fun a o => match run (plist pv2) a with
-        | some vs => withOut (do let ar ← pfo; let x ← pfo; let y ← pfo; pure (ar, (⟨x, y⟩ : V2 Float))) o fun (ar, c) =>
+        | some vs => if vs.isEmpty then "skip empty-slice (documented unwrap panic)" else
+          withOut (do let ar ← pfo; let x ← pfo; let y ← pfo; pure (ar, (⟨x, y⟩ : V2 Float))) o fun (ar, c) =>
             let V := vs.map q2
             if !convexCCWorCW V then "skip not-convex" else
             let L := extent V
@@ -529,7 +535,8 @@ def handler (fn : String) : Option Handler :=
   | "from_convex_polygon" => some {
       model := fun a => run (do let d ← pf; let vs ← plist pv2; pure (fopt (fromConvexPolygon d vs))) a
       oracle := fun a o => match run (do let d ← pf; let vs ← plist pv2; pure (d, vs)) a with
-        | some (d, vs) => withOut pomp2 o fun r =>
+        | some (d, vs) => if vs.isEmpty then "skip empty-slice (documented unwrap panic)" else
+          withOut pomp2 o fun r =>
             let V := vs.map q2
             if !convexCCWorCW V then "skip not-convex" else
             let (sA, F, J) := polyMom V
@@ -585,7 +592,7 @@ def handler (fn : String) : Option Handler :=
             judgeLamina (q d) (polyMom V) (extent V) out
         | none => "skip bad-args" }
   | "from_capsule2" => some {
-      model := fun a => run (do let d ← pf; let p ← pv2; let p' ← pv2; let r ← pf; pure (fmp2 (fromCapsule2 piF d p p' r))) a
+      model := fun a => run (do let d ← pf; let p ← pv2; let p' ← pv2; let r ← pf; pure (fmp2 (if capsule2Fixed then fromCapsule2 piF d p p' r else fromCapsule2Pinned piF d p p' r))) a
       oracle := fun a o => match run (do let d ← pf; let p ← pv2; let p' ← pv2; let r ← pf; pure (d, p, p', r)) a with
         | some (d, p, p', r) => withOut pomp2 o fun out =>
             let A := q2 p; let B := q2 p'; let R := q r
